@@ -10,6 +10,7 @@ import Zlink.Model.DriverUnix
 import Zlink.Model.DriverAlias
 import Zlink.Model.DriverProxy
 import Zlink.Model.DriverCg
+import Zlink.Model.DriverIntro
 /-! `zmodel`: reads case lines on stdin, prints for each the model's observation and the Lean
     oracle's verdict on the implementation's observation. -/
 
@@ -25,6 +26,9 @@ def handleLine (line : String) : String :=
   | "proxy" :: _ => DriverProxy.handle ts
   | "proxyreply" :: _ => DriverProxy.handle ts
   | "proxystream" :: _ => DriverProxy.handle ts
+  | "intro" :: _ => DriverIntro.handle ts
+  | "introty" :: _ => DriverIntro.handle ts
+  | "intrort" :: _ => DriverIntro.handle ts
   | "cgdecl" :: _ => DriverCg.handle ts
   | "cgcall" :: _ => DriverCg.handle ts
   | "cgreply" :: _ => DriverCg.handle ts
